@@ -1377,7 +1377,8 @@ class Py2Cpp(ITranspiler):
 	# Operator
 
 	def on_factor(self, node: defs.Factor, operator: str, value: str) -> str:
-		return self.render(node, 'operation/unary_operator', vars={'operator': operator, 'value': value})
+		# XXX 単項演算子の連続(`--a`/`++a`)はC++ではデクリメント/インクリメントになるため、括弧で区切る
+		return self.render(node, 'operation/unary_operator', vars={'operator': operator, 'value': f'({value})' if node.value.is_a(defs.Factor) else value})
 
 	def on_not_compare(self, node: defs.NotCompare, operator: str, value: str) -> str:
 		# XXX C++の`!`はPythonの`not`より優先度が高いため、単項以外の式は括弧で囲う
